@@ -130,12 +130,22 @@ pub fn record(seed: u64, thorough: bool, shards: usize, prefix: &str) -> Value {
     let mut fwd_dis_a = vec![0usize; pals.len()];
     let mut fwd_tie_a = vec![0usize; pals.len()];
     let mut counter = 0usize;
-    let mut rr = off;
-    while rr < 256 {
-        let mut gg = off;
-        while gg < 256 {
-            let mut bb = off;
-            while bb < 256 {
+    // quick: the seeded lattice, then a boundary lattice (channel values within 2 of a cube level, of either end of the grey
+    // ramp and of 0/255) - exact-hit shortcuts and early exits go wrong next to the fixed colours, not in the middle
+    let mut boundary: Vec<usize> = Vec::new();
+    for centre in [0i64, 8, 95, 135, 175, 215, 238, 248, 255, 128] {
+        for d in -2i64..=2 {
+            let v = centre + d;
+            if (0..256).contains(&v) && !boundary.contains(&(v as usize)) {
+                boundary.push(v as usize);
+            }
+        }
+    }
+    let passes: Vec<Vec<usize>> = if thorough { vec![(0..256).collect()] } else { vec![(off..256).step_by(step).collect(), boundary] };
+    for vals in &passes {
+    for &rr in vals {
+        for &gg in vals {
+            for &bb in vals {
                 let c = [rr as i64, gg as i64, bb as i64];
                 let rgb = RgbColor(rr as u8, gg as u8, bb as u8);
                 swept += 1;
@@ -184,11 +194,9 @@ pub fn record(seed: u64, thorough: bool, shards: usize, prefix: &str) -> Value {
                         emit(json!({"op":"rgb_to_ansi","c":c,"pal":pal_json(p),"r":got}));
                     }
                 }
-                bb += step;
             }
-            gg += step;
         }
-        rr += step;
+    }
     }
     // seeded random colours through the colour-level entry points
     for _ in 0..(if thorough { 4000 } else { 400 }) {
